@@ -17,7 +17,7 @@ PER_PROG = 24
 
 
 def expr_cases(env, tier, rnd):
-    rex = tlc.require_ok(tlc.run(env.tmpdir("tlc"), "ExprGen", "Gen_Expr.cfg", ["lang", "lib"], workers=8, timeout=1800), "ExprGen")
+    rex = tlc.require_ok(tlc.run(env.tmpdir("tlc"), "ExprGen", "Gen_Expr.cfg", ["lang", "lib"], workers=12, timeout=1800), "ExprGen")
     ec = [c for c in rex["cases"] if not c.get("sp")]
     rex["special"] = sorted((c for c in rex["cases"] if c.get("sp")), key=lambda c: json.dumps(c, sort_keys=True))
     ec.sort(key=lambda c: json.dumps(c, sort_keys=True))
